@@ -188,6 +188,15 @@ theorem toString_rfc_meaning (v : Val) (h : wf v) : interp (treeOf v) = some (no
 theorem roundtrip_through_rfc (v : Val) (h : wf v) : parse (toString v ++ [0]) = .ok (norm v) :=
   accepts_rfc _ _ _ (toString_is_rfc8259 v h) (toString_rfc_meaning v h)
 
+/-- the serialiser loses nothing beyond what `norm` identifies, for ALL pairs of well-formed values: two values with the same text
+    have the same normal form (so two values that parse back differently never print alike) -/
+theorem toString_injective_up_to_norm (v w : Val) (hv : wf v) (hw : wf w) (h : toString v = toString w) : norm v = norm w := by
+  have h1 := roundtrip_through_rfc v hv
+  have h2 := roundtrip_through_rfc w hw
+  rw [h, h2] at h1
+  injection h1 with h1
+  exact h1.symm
+
 /-! ### the failing side of `\u` -/
 
 /-- high surrogate escape followed by a `\u` escape that is not a low surrogate: `pos.pos -= 6`, the syntax
